@@ -84,7 +84,10 @@
 (***************************************************************************)
 EXTENDS Integers, Sequences, FiniteSets, TLC, Json, IOUtils
 
-CONSTANT Source          \* "enum" | "file"
+CONSTANTS Source,        \* "enum" | "file"
+          MovedDocformat  \* which module's __docformat__ parses the docstring of a FUNCTION moved by a re-export:
+                          \* "new_module" (model.Documentable.reparent sets parentMod of the moved object itself,
+                          \* model.py:278, and epydoc2stan._get_docformat asks obj.module) | "defining_module"
 
 DocFormats == {"epytext", "restructuredtext", "plaintext", "google", "numpy"}
 Docutils == DocFormats \ {"plaintext"}     \* formats rendered through docutils nodes
@@ -99,7 +102,13 @@ Routes ==
     xrefrst    |-> <<"ToNode", "LinkLabel", "FlattenInner", "ParseXml", "FlattenToFile">>,
     xrefepy    |-> <<"ToNode", "DocutilsEncode", "ParseXml", "LinkLabel", "FlattenInner", "ParseXml", "FlattenToFile">>,
     doctest    |-> <<"ToNode", "Colorize", "FlattenInner", "ParseXml", "FlattenToFile">>,
-    rstquote   |-> <<"RstInterpolate", "ToNode", "DocutilsEncode", "ParseXml", "FlattenToFile">> ]
+    rstquote   |-> <<"RstInterpolate", "ToNode", "DocutilsEncode", "ParseXml", "FlattenToFile">>,
+    \* the text of a PLAINTEXT docstring read by the reST parser: a ".. raw:: html" block in it is a raw node whose
+    \* content the HTML writer copies (visit_raw); its tags become elements, the text between them stays as it was
+    rawdirective |-> <<"ToNode", "DocutilsRaw", "ParseXmlTags", "FlattenToFile">>,
+    \* :math:`\text{...}` / `\mbox{...}`: docutils math2html copies text-mode content unescaped into the HTML
+    \* (visit_math is not overridden in node2stan.py): entity look-alikes are decoded by html2stan
+    mathtext   |-> <<"ToNode", "MathToHtml", "ParseXml", "FlattenToFile">> ]
 
 \* container before -> after, level change
 Stage ==
@@ -116,7 +125,10 @@ Stage ==
     ParseXmlFails  |-> [from |-> {"html"},         to |-> "lost", d |-> 0],
     Fallback       |-> [from |-> {"lost"},         to |-> "stan", d |-> 0],   \* level := 0, see Apply
     Elide          |-> [from |-> {"lost"},         to |-> "none", d |-> 0],
-    RstInterpolate |-> [from |-> {"src"},          to |-> "src",  d |-> 0] ]
+    RstInterpolate |-> [from |-> {"src"},          to |-> "src",  d |-> 0],
+    DocutilsRaw    |-> [from |-> {"node"},         to |-> "html", d |-> 0],
+    MathToHtml     |-> [from |-> {"node"},         to |-> "html", d |-> 0],
+    ParseXmlTags   |-> [from |-> {"html"},         to |-> "stan", d |-> 0] ]
 
 \* ----------------------------------------------------------------------------- sinks per source kind
 S(z, c, q) == [zone |-> z, ctx |-> c, quoted |-> q]
@@ -185,6 +197,13 @@ Feeds ==
   \* ".. image:: x.png / x.svg" with ":alt: text" in a reST docstring: alt attribute of <img>, content of <object>
   \cup { Feed("imagealt", S("docstring", "attr", FALSE), "docutils") }
   \cup { Feed("imagealt", S("docstring", "text", FALSE), "docutils") }
+  \* docstrings of a class / its method / a function defined in a `__docformat__ = "plaintext"` module and re-exported
+  \*   by a restructuredtext package: plaintext like doc.plaintext - but see MovedDocformat for the function
+  \cup { Feed("reexport.plaintext", S(z, "text", FALSE), "docutils") : z \in SummaryZones }
+  \cup { Feed("reexport.plaintext", S("docstring", "text", FALSE), "stan") }
+  \cup { Feed("reexport.plaintext", S("docstring", "text", FALSE), "rawdirective") }
+  \* text-mode content of inline math in a reST docstring
+  \cup { Feed("mathtext", S("docstring", "text", FALSE), "mathtext") }
   \* options                                                              (pages/__init__.py:182-186)
   \cup { Feed("projname", S(z, "text", FALSE), "stan") : z \in {"alldocs", "footer", "navbar"} }
   \cup { Feed("projurl", S(z, "url", FALSE), "stan") : z \in {"alldocs", "footer", "navbar"} }
@@ -195,9 +214,11 @@ Kinds == {f.kind : f \in Feeds}
 Classes == {"plain", "xmlbreak", "linesep"}
 \* a feed only exists for some payload classes
 Active(f, cls) ==
-  (cls = "linesep") => f.kind = "deprecated"              \* elsewhere a line separator is an ordinary character
-FirstParse(r) == CHOOSE i \in 1..Len(r) : r[i] = "ParseXml" /\ \A j \in 1..(i - 1) : r[j] # "ParseXml"
-HasParse(r) == \E i \in 1..Len(r) : r[i] = "ParseXml"
+  /\ (cls = "linesep") => f.kind = "deprecated"           \* elsewhere a line separator is an ordinary character
+  /\ (f.route = "rawdirective") => MovedDocformat = "new_module"
+IsParse(st) == st \in {"ParseXml", "ParseXmlTags"}
+FirstParse(r) == CHOOSE i \in 1..Len(r) : IsParse(r[i]) /\ \A j \in 1..(i - 1) : ~IsParse(r[j])
+HasParse(r) == \E i \in 1..Len(r) : IsParse(r[i])
 Cut(r) == SubSeq(r, 1, FirstParse(r) - 1) \o <<"ParseXmlFails">>
 \* which fallback the caller of the failing html2stan has
 Elided(f) == f.zone \in SummaryZones \cup {"signature"}      \* format_summary_fallback, format_signature
@@ -215,7 +236,7 @@ Apply(st, lv) == IF st = "ParseXml" THEN lv - 1
                  ELSE IF st = "Fallback" THEN 0
                  ELSE lv + Stage[st].d
 \* what the wrapped functions report: a raising html2stan is a ParseXml step with level out -3
-ObsStage(st) == IF st = "ParseXmlFails" THEN "ParseXml" ELSE st
+ObsStage(st) == IF st \in {"ParseXmlFails", "ParseXmlTags"} THEN "ParseXml" ELSE st
 ObsOut(st, lv) == IF st = "ParseXmlFails" THEN -3 ELSE Apply(st, lv)
 
 RECURSIVE Walk(_, _, _, _)
@@ -224,7 +245,7 @@ Walk(route, i, lv, c) ==
   IF i > Len(route) THEN <<>>
   ELSE LET st == route[i] IN
        <<[stage |-> ObsStage(st), lin |-> lv, lout |-> ObsOut(st, lv), typed |-> c \in Stage[st].from,
-          raw |-> st \in {"ParseXml", "ParseXmlFails"} /\ lv = 0]>> \o Walk(route, i + 1, Apply(st, lv), Stage[st].to)
+          raw |-> st \in {"ParseXml", "ParseXmlFails", "ParseXmlTags"} /\ lv = 0]>> \o Walk(route, i + 1, Apply(st, lv), Stage[st].to)
 Flow(f, cls) == Walk(RouteSeq(f, cls), 1, 0, "src")
 Reaches(f, cls) == LET r == RouteSeq(f, cls) IN r[Len(r)] = "FlattenToFile"
 Final(f, cls) == LET w == Flow(f, cls) IN w[Len(w)].lout
@@ -259,7 +280,7 @@ Step ==
        /\ cont \in Stage[st].from                       \* WellTyped: a stage only takes what the code gives it
        /\ level' = Apply(st, level)
        /\ cont' = Stage[st].to
-       /\ parsedRaw' = (parsedRaw \/ (st \in {"ParseXml", "ParseXmlFails"} /\ level = 0))
+       /\ parsedRaw' = (parsedRaw \/ (st \in {"ParseXml", "ParseXmlFails", "ParseXmlTags"} /\ level = 0))
        /\ hist' = Append(hist, <<ObsStage(st), level, ObsOut(st, level)>>)
   /\ pc' = pc + 1
   /\ UNCHANGED <<pair, cls>>
@@ -271,8 +292,13 @@ Done == pc = Len(Route) + 1
 
 \* ----------------------------------------------------------------------------- properties (model)
 NeverParsedRaw == ~parsedRaw
+\* open known findings: the invariants hold everywhere else
+KF_MovedFunctionDocformat == Source = "enum" /\ pair.route = "rawdirective"
+KF_MathTextCopiedRaw == Source = "enum" /\ pair.route = "mathtext"
+NeverParsedRawExceptKnown == NeverParsedRaw \/ KF_MovedFunctionDocformat \/ KF_MathTextCopiedRaw
 \* a flow ends in the page at level 1 - or, after an XML error, nowhere; fallback routes included
 SinkLevelOne == (Source = "enum" /\ Done) => ((cont = "file" /\ level = 1) \/ (cont = "none" /\ cls = "xmlbreak"))
+SinkLevelOneExceptKnown == SinkLevelOne \/ KF_MathTextCopiedRaw
 WellTyped == Source = "enum" => (pc <= Len(Route) => cont \in Stage[Route[pc]].from)
 SameAsWalk == (Source = "enum" /\ Done) => hist = [i \in DOMAIN Flow(pair, cls) |->
                   <<Flow(pair, cls)[i].stage, Flow(pair, cls)[i].lin, Flow(pair, cls)[i].lout>>]
